@@ -207,6 +207,9 @@ def run_case(case, st):
 
 def _run_case(psutil, case, st, socks, hold, ipv6, be):
     w, pa, pb = st
+    # whether THIS process can bind ::1 says nothing about the kernel's tables: with the probe negative (IPv6 disabled on lo) and the
+    # tables present, the sockets they list are reported
+    w.ipv6 = case.get("probe6", True)
     holders = apply_case(w, pa, pb, socks, hold, ipv6, be)
     if not ipv6:
         socks = [s for s in socks if not s["proto"].endswith("6")]
@@ -414,6 +417,7 @@ def build_cases(thorough):
             cases.append({"socks": socks, "hold": hold, "badkinds": BADKINDS if n < 2 else []})
             if any(s["proto"].endswith("6") for s in socks):
                 cases.append({"socks": socks, "hold": hold, "ipv6": False})
+                cases.append({"socks": socks, "hold": hold, "probe6": False})
     return cases
 
 
